@@ -225,6 +225,14 @@ def run_repeat(case):
             else:
                 c.add({"o1": "summary", "o2": "x-other"}[it], it)
     want = [(FALSY_TEXT[it] if mode == "falsy-values" else it) for it in order if it.startswith("c")]
+    if mode in ("values", "falsy-values"):
+        # sorting off: a name stands where it was FIRST inserted, all its values there, in the order they were added
+        nm = {"c": "COMMENT", "o1": "SUMMARY", "o2": "X-OTHER"}
+        first_seen = list(dict.fromkeys(nm["c"] if it.startswith("c") else nm[it] for it in order))
+        want_names = [n_ for n_ in first_seen for _ in range(3 if n_ == "COMMENT" else 1)]
+        got_names = names_in_output(c.to_ical(sorted=False))
+        if got_names != want_names:
+            fails.append(fail(f"repeated-{mode}:unsorted-output-not-in-first-insertion-order", case, want_names, got_names))
     for srt in (True, False):
         data = c.to_ical(sorted=srt)
         text = data.decode().replace("\r\n ", "")
